@@ -344,16 +344,24 @@ def job_tmpl(job) -> report.JobResult:
                 val = val * 10 + (v - 48)
             return ds, val
         a = b = None
+        pad = [48] * job.get("zero_pad", 0)  # leading zeros: '0000000000000000000007' is the number 7, however long it is written
         if f[0] == "a":
             ds, a = digits("a")
+            items.extend(pad)
             items.extend(SInt(v) for v in ds)
         items.append(ord("-"))
         if f[1] == "b":
             ds, b = digits("b")
+            items.extend(pad)
             items.extend(SInt(v) for v in ds)
         specs_sym.append((f, a, b))
     header = SStr(items)
     shims = Shims().add(R, re=ReShim, int=int_shim)
+    import sys
+    old_limit = sys.get_int_max_str_digits()
+    if job.get("int_limit") is not None:
+        # interpreter configuration (-X int_max_str_digits / PYTHONINTMAXSTRDIGITS): 0 switches the digit limit off
+        sys.set_int_max_str_digits(job["int_limit"])
 
     def fn():
         return FileResponseMixin.parse_range(header, SInt(size))
@@ -377,8 +385,11 @@ def job_tmpl(job) -> report.JobResult:
         res["validated"] += 1
         res.sample({"header": hdr, "size": sz, "outcome": real})
 
-    with shims:
-        eng.explore(fn, on_path)
+    try:
+        with shims:
+            eng.explore(fn, on_path)
+    finally:
+        sys.set_int_max_str_digits(old_limit)
     res.absorb_engine(eng)
     return res
 
@@ -441,6 +452,13 @@ def jobs(tier: str):
                 for sep in ([","], [", "]) if k > 1 else ([],):
                     out.append(dict(name=f"tmpl/{','.join(forms)}/d{nd}/sep{len(sep[0]) if sep else 0}", layer="tmpl",
                                     forms=list(forms), digits=nd, seps=sep * (k - 1), weight=4 ** (k * nd)))
+    for lim in (0, 640):
+        out.append(dict(name=f"tmpl/ab,a-/d1/int-digit-limit-{lim or 'off'}", layer="tmpl", forms=["ab", "a-"], digits=1, seps=[","], int_limit=lim, weight=20))
+    # numbers written with leading zeros, longer than any machine word has digits (20 and 40 characters)
+    for forms in (["ab"], ["a-"], ["-b"], ["ab", "ab"]):
+        for pad in (19, 38):
+            out.append(dict(name=f"tmpl/{','.join(forms)}/d2/zero-padded-to-{pad + 2}", layer="tmpl", forms=list(forms), digits=2, seps=[","] * (len(forms) - 1),
+                            zero_pad=pad, weight=300))
     out.append(dict(name="twin/tmpl/ab", layer="tmpl", forms=["ab"], digits=1, seps=[], twin=True))
     for m in range(0, b["text_free_chars"] + 1):
         out.append(dict(name=f"text/bytes=+{m}", layer="text", prefix="bytes=", n=m, weight=5 ** m))
